@@ -4,41 +4,12 @@ entries of the Model matrices), ladder matrices of the Spec on two modes.
 -/
 import OFV.Model.C14Gates
 import OFV.Spec.C14
+import OFV.Proofs.GQRing
 import Mathlib.Algebra.Ring.Rat
 import Mathlib.Tactic.Ring
 import Mathlib.Tactic.Linarith
 import Mathlib.Tactic.LinearCombination
 import OFV.Generated.C14
-
-namespace OFV
-namespace GQ
-
-instance : CommRing GQ where
-  add := (· + ·)
-  add_assoc a b c := by apply GQ.ext <;> simp <;> ring
-  zero := 0
-  zero_add a := by apply GQ.ext <;> simp
-  add_zero a := by apply GQ.ext <;> simp
-  nsmul := nsmulRec
-  neg := Neg.neg
-  zsmul := zsmulRec
-  neg_add_cancel a := by apply GQ.ext <;> simp
-  add_comm a b := by apply GQ.ext <;> simp <;> ring
-  mul := (· * ·)
-  left_distrib a b c := by apply GQ.ext <;> simp <;> ring
-  right_distrib a b c := by apply GQ.ext <;> simp <;> ring
-  zero_mul a := by apply GQ.ext <;> simp
-  mul_zero a := by apply GQ.ext <;> simp
-  mul_assoc a b c := by apply GQ.ext <;> simp <;> ring
-  one := 1
-  one_mul a := by apply GQ.ext <;> simp
-  mul_one a := by apply GQ.ext <;> simp
-  mul_comm a b := by apply GQ.ext <;> simp <;> ring
-  sub := (· - ·)
-  sub_eq_add_neg a b := by apply GQ.ext <;> simp <;> ring
-
-end GQ
-end OFV
 
 namespace OFV.C14
 open OFV.Model.C14 OFV.Spec.C14
